@@ -13,7 +13,7 @@ import (
 // the caller's locals in scope; it is how protocol-order facts ("rename only after a successful sync") are stated
 // without touching the code.
 func (c *Ctx) checkAtCall(st *State, x *ast.CallExpr, fn *types.Func) {
-	if c.fc == nil || len(c.fc.AtCall) == 0 || c.inlineDepth > 0 {
+	if c.fc == nil || len(c.fc.AtCall) == 0 || c.inlineDepth > c.closureDepth {
 		return
 	}
 	var keys []string
@@ -225,7 +225,7 @@ func (c *Ctx) splitClosureCall(st *State, x *ast.CallExpr) (*State, *State) {
 // checkAtStmt raises the assertions attached ("at-stmt "<text>" requires <expr>") to simple statements of the function
 // under verification, matched by their gofmt-normalised source text; evaluated in the state just before the statement.
 func (c *Ctx) checkAtStmt(st *State, s ast.Stmt) {
-	if c.fc == nil || len(c.fc.AtStmt) == 0 || c.inlineDepth > 0 || st.dead() {
+	if c.fc == nil || len(c.fc.AtStmt) == 0 || c.inlineDepth > c.closureDepth || st.dead() {
 		return
 	}
 	switch s.(type) {
